@@ -19,6 +19,7 @@ from harness.gen import tpl
 from harness.gen import values as V
 
 PROP = "C17"
+CASE_WATCHDOG_S = 900.0  # a case runs several forked children one after the other; each child has its own (shorter) alarm
 TECHNIQUE = "snapshot invariants around every render + forked-twin history monitor (probe alone vs probe after a history, each in a pristine child)"
 RULE = (
     "purity cases: generated template (all standard tags/filters incl. sort, reverse, map, concat, push-like filters) rendered sync/async with "
